@@ -1,6 +1,6 @@
 """Rules shared by several properties."""
 from ..core import Unestablished
-from ..hir import walk, strip, pretty, short, calls, children
+from ..hir import walk, strip, pretty, short, calls, children, pat_binds
 from .. import e4
 
 ACC = "feedback::Accumulation"
@@ -125,3 +125,53 @@ def nested_range_build(n):
     if not dims:
         return None
     return dims, cur
+
+
+def is_map_call(x, field, name):
+    return (x.get("k") == "mcall" and x["callee"].startswith("std::collections::HashMap::") and x["name"] == name
+            and strip(x["recv"]).get("k") == "field" and strip(x["recv"])["f"] == field)
+
+
+def map_guard(ifnode, field):
+    """`if self.F.contains_key(&K) {..}` or `if let Some(v) = self.F.get(&K) {..}` -> dict(key=<node K>, bound={hids bound to the looked-up value})"""
+    if ifnode.get("k") != "if":
+        return None
+    cn = strip(ifnode["c"])
+    if cn.get("k") == "letx":
+        init = strip(cn["init"])
+        if is_map_call(init, field, "get") and e4.arm_variant({"pat": cn["pat"]})[0].endswith("Some"):
+            return dict(key=init["args"][0], bound={h for (_, h) in pat_binds(cn["pat"])})
+        return None
+    for x in walk(cn):
+        if is_map_call(x, field, "contains_key") and strip(cn) is x:
+            return dict(key=x["args"][0], bound=set())
+    return None
+
+
+def is_lookup(n, field, key_hid, bound):
+    """does n denote the value stored under key `key_hid` in self.<field>? (`self.F[&k]`, `self.F.get(&k).unwrap()`, `*..`, or the if-let binding)"""
+    n = strip(n)
+    while n is not None and n.get("k") == "mcall" and n["name"] in ("unwrap", "clone", "iter", "expect", "copied"):
+        n = strip(n["recv"])
+    if n is None:
+        return False
+    if n.get("k") == "local":
+        return n["hid"] in bound
+    if n.get("k") == "index" and strip(n["b"]).get("k") == "field" and strip(n["b"])["f"] == field:
+        return e4.local_hid(n["i"]) == key_hid
+    if is_map_call(n, field, "get"):
+        return e4.local_hid(n["args"][0]) == key_hid
+    return False
+
+
+def range_bounds(c, n, env=None):
+    """(start, end_exclusive) of `a..b` / `a..=b` as canonical Rats, or None"""
+    from .. import e1
+    n = strip(n)
+    N = e1.Norm(c, env or {})
+    if n.get("k") == "struct" and n["path"] == "std::ops::Range":
+        fs = dict((a, b) for a, b in n["fs"])
+        return N.norm(fs["start"]), N.norm(fs["end"])
+    if n.get("k") == "call" and "RangeInclusive" in n.get("callee", "") and len(n["args"]) == 2:
+        return N.norm(n["args"][0]), N.norm(n["args"][1]) + 1
+    return None
